@@ -114,6 +114,7 @@ def run_job(arg):
         eng = Engine(solver_timeout_ms=getattr(H, "SOLVER_TIMEOUT_MS", 60000), deadline=deadline,
                      max_paths=job.get("max_paths"))
         eng.opaque_ints = getattr(H, "OPAQUE_INTS", False)
+        eng.forced = dict(job.get("force") or {})
         known = getattr(H, "KNOWN", {})
         preds = [known[k] for k in known_ids if k in known]
         normalize = getattr(H, "normalize", lambda o: o)
